@@ -140,7 +140,7 @@ def run(rep, tier, seed, replay=None):
     rep.cov['adjacent_margin_sign_combinations'] = sorted('%s/%s' % p for p in pairs)
     rep.cov['inflow_children_total'] = inflow_total
     rep.cov['samples'] = [{'case': c[:70], 'impl': a[:30]} for c, a in list(zip(cases, impl))[:2]]
-    rep.cov['samples'].append({'theorem': 'C10_order_no_overlap : fin_params P -> Forall (nonneg_ok P) xs -> nth_error rs i = Some ri -> '
+    rep.cov['samples'].append({'theorem': 'C10_order_no_overlap_partial : fin_params P -> Forall (nonneg_ok P) xs -> nth_error rs i = Some ri -> '
                                           'nth_error rs j = Some rj -> i < j -> inflow ri -> inflow rj -> val (y ri) + val (h ri) <= val (y rj)'})
     rep.cov['samples'].append({'theorem': 'C10_margin_collapse_through_partial : ... ~ mixed_ms (top_set r_j) -> val (y r_j) - (val (y r_i) + val (h r_i)) '
                                           '== val (ms_resolve (ms_collapse_with_set (through_union (bottom_set r_i) rs_m) (top_set r_j)))'})
